@@ -213,6 +213,10 @@ class SimPath(_real_pathlib.PosixPath):
         _y(K['FTOUCH'], _key(self) & 0x3fffffff)
         return super().touch(mode, exist_ok)
 
+    def unlink(self, missing_ok=False):
+        _y(K['FTOUCH'], _key(self) & 0x3fffffff, 1)
+        return super().unlink(missing_ok)
+
     def open(self, mode='r', *args, **kwargs):
         if 'b' not in mode:
             return super().open(mode, *args, **kwargs)
@@ -249,9 +253,11 @@ class FcntlStub:
         # LOCK_SH is treated as LOCK_EX by the stub only if the code under test asks for LOCK_EX;
         # a shared lock request does not exclude other shared holders
         if op & self.LOCK_SH:
-            sim.yield_point(K['FLOCK'], sim.flock_id(_key(f._path)), 1)
+            sim.yield_point(K['FLOCK'], sim.flock_id(int(os.fstat(f.fileno()).st_ino)), 1)
             return None
-        l = sim.flock_id(_key(f._path))
+        # flock is tied to the open file description, i.e. to the inode: a file that was unlinked and re-created at the
+        # same path is a different lock (ids are handed out in order of first use, so the event log stays deterministic)
+        l = sim.flock_id(int(os.fstat(f.fileno()).st_ino))
         sim.flock(l)
         f._flock = l
         return None
